@@ -4,6 +4,7 @@ import GdcVerif.Lemmas.JllBits
 import GdcVerif.Lemmas.JllCanon
 import GdcVerif.Lemmas.JllScan
 import GdcVerif.Lemmas.JllOptimal
+import GdcVerif.Lemmas.JllOptimalGen
 import GdcVerif.Lemmas.JllCompose
 import GdcVerif.Lemmas.JllEndToEnd
 /-!
@@ -250,6 +251,35 @@ theorem optimal_table_valid (f : List Nat) (hf : Opt.LosslessFreq f) :
   optimal_table_valid' f hf
 
 example : Opt.LosslessFreq (catFreq [0, 3, 3, 16, 7]) := catFreq_lossless _ (by decide)
+
+/-! ### L6 for ANY alphabet (≤ 256 symbols: the DCT codecs' DC/AC tables use the same function) -/
+
+/-- `BuildOptimalHuffmanTable` returns normally exactly when no pre-limit code size exceeds 32
+    (`DepthLe f 32`, executable); otherwise it hits the `bits[size]` index panic; it never fails to
+    terminate.  No restriction on the alphabet: all 256 byte values may have non-zero frequency. -/
+theorem optimal_table_ok_iff_depth (f : List Nat) (hlen : f.length = 256) :
+    ((∃ r, Opt.buildOptimal f = .ok r) ↔ Opt.DepthLe f 32) ∧
+    (Opt.buildOptimal f = .panic ↔ ¬ Opt.DepthLe f 32) ∧ Opt.buildOptimal f ≠ .err :=
+  ⟨Opt.buildOptimal_ok_iff f hlen, Opt.buildOptimal_panic_iff f hlen, Opt.buildOptimal_ne_err f hlen⟩
+
+/-- under depth ≤ 32 the result is a valid table for ANY alphabet: 16 non-negative counts summing to
+    the number of values, values = exactly the symbols with non-zero frequency (each once), strict
+    Kraft inequality (all-ones code reserved), code lengths ≤ 16 -/
+theorem optimal_table_valid_any_alphabet (f : List Nat) (hlen : f.length = 256) (hd : Opt.DepthLe f 32) :
+    ∃ bits values, Opt.buildOptimal f = .ok (bits, values) ∧
+      bits.length = 16 ∧ (∀ x ∈ bits, 0 ≤ x) ∧ (bits.map Int.toNat).sum = values.length ∧
+      values.Nodup ∧ (∀ i, i ∈ values ↔ i < 256 ∧ f[i]?.getD 0 ≠ 0) ∧ Opt.kraft16 bits < 65536 :=
+  Opt.buildOptimal_valid_of_depth f hlen hd
+
+/-- the depth is bounded by the total count: a code size d ≥ 1 needs fib (d+2) ≤ total + 1, so every
+    frequency vector with fewer than fib 35 − 1 = 9 227 464 counted symbols (e.g. any image of up to
+    ~9.2 million coefficients per table) has depth ≤ 32 and therefore a valid table and no panic.
+    The bound is sharp (`[fib 33, …, fib 1]` has total fib 35 − 1 and depth 33). -/
+theorem optimal_table_depth_from_total (f : List Nat) (hlen : f.length = 256)
+    (hs : f.sum + 1 < 9227465) : Opt.DepthLe f 32 ∧ Opt.fib 35 = 9227465 :=
+  ⟨Opt.depthLe_of_sum f hlen hs, Opt.fib_35⟩
+
+example : (catFreq [0, 3, 3, 16, 7]).length = 256 := by simp [catFreq]
 
 /-! ## L6 + L7 — the scan round trip with the per-image optimal table, no table hypothesis left -/
 
